@@ -26,6 +26,9 @@ structure Proposal where
   cuAlias : String := ""
   cuAdd : Bool := true
   cuProposer : Addr := ""
+  clPool : Nat := 0         -- shield claim: pool, purchase, loss (the content's proposer is `cuProposer`)
+  clPurchase : Nat := 0
+  clLoss : Coins := []
   status : Nat           -- 1 deposit, 2 certifier voting, 3 validator voting, 4 passed, 5 rejected, 6 failed
   isCouncil : Bool
   proposer : Addr
